@@ -142,6 +142,10 @@ bool Clock::inheritsResetPinSource() const
 	if (m_parentClock == nullptr)
 		return false;
 
+	// a parent without reset has no reset pin to inherit
+	if (m_parentClock->getRegAttribs().resetType == RegisterAttributes::ResetType::NONE)
+		return false;
+
 	if (!isSelfDriven(true, false) || !isSelfDriven(false, false))
 		return false;
 
